@@ -219,6 +219,9 @@ class Op:
             if site_idx is None:
                 raise ValueError(f"Unknown DoF name {elem_name} in {self}.")
             # Note that the order of operators on each site is not changed
+            # keep the spelling with blanks, so that the symbol is the same primary operator
+            # as when it is the only symbol of a term
+            elem_symbol = elem_symbol.replace(r"b^\dagger+b", r"b^\dagger + b")
             grouped_op_info[site_idx].append(Op(elem_symbol, elem_name, qn=qn))
         # Construct elementary operators. Small site index first.
         ops = []
